@@ -667,6 +667,7 @@ def run_check(prop, tier, seed):
             continue
         plan = stage['plan'][tier]
         nworkers = stage.get('workers', {}).get(tier, JOBS)
+        stage_crash_confirmed = [False]
         results, tmpd = run_workers(exe, prop, tier, seed, plan, nworkers, stage.get('env'), stage.get('timeout', {}).get(tier),
                                     stage.get('args'))
         for i, (rc, stats, log, cur) in enumerate(results):
@@ -687,6 +688,10 @@ def run_check(prop, tier, seed):
                     open(dst, 'w').write('sub=setup-crash\nstage=%s\nplan=%s\nworker=%d\nlog=%s\n' % (stage['name'], plan, i, log[-3000:].replace('\n', ' | ')))
                     fails.append({'replay': dst, 'why': desc + ' outside a generated case (harness set-up); log: ' + log[-600:], 'crash': True, 'setup': True})
             for f in fails:
+                if f.get('crash') and not f.get('setup') and stage_crash_confirmed[0]:
+                    # a second worker died the same way (typically the same hang): one confirmed crash per stage is replayed and minimised
+                    notes.append('further crash in stage %s not replayed (one already confirmed): %s %s' % (stage['name'], f.get('replay', ''), f['why'][:200]))
+                    continue
                 if len(violations) + len(known_hits) >= 3:
                     notes.append('further failure not replayed (3 already confirmed): %s' % f.get('why', '')[:300])
                     continue
@@ -704,6 +709,8 @@ def run_check(prop, tier, seed):
                     if rrc != 0:
                         confirmed += 1
                 if confirmed == nrep:
+                    if f.get('crash'):
+                        stage_crash_confirmed[0] = True
                     if f.get('crash') and not any(v[0] for v in violations):
                         minimize_crash(exe, prop, path, stage.get('env'))
                     k = matches_known(prop, path)
